@@ -390,7 +390,7 @@ class Interp:
             if not free and name in ("isfinite", "isnan") and len(vals) == 1:
                 fin = bool(sp.S(vals[0]).is_finite)
                 return fin if name == "isfinite" else not fin
-            if not free and name in ("any", "all") and all(isinstance(v_, (bool, sp.logic.boolalg.BooleanAtom)) for v_ in vals):
+            if not free and name in ("any", "all") and all(isinstance(v_, (bool, np.bool_, sp.logic.boolalg.BooleanAtom)) for v_ in vals):
                 return (any if name == "any" else all)(bool(v_) for v_ in vals)
             # a data-dependent predicate: left to the rule's decision table / decider
             return sp.Function("opaque_" + name)(*sorted(free, key=str)) if free else sp.Function("opaque_" + name)(sp.Symbol("_"))
@@ -514,7 +514,7 @@ class Frame:
             if d in self.it.ext_consts:
                 return self.it.ext_consts[d]
             return ExtRef(d)
-        if name in ("len", "range", "float", "int", "bool", "abs", "tuple", "list", "enumerate", "zip", "min", "max",
+        if name in ("len", "range", "float", "int", "bool", "abs", "tuple", "list", "enumerate", "zip", "min", "max", "any", "all",
                     "sum", "isinstance"):
             return ExtRef("builtins." + name)
         raise Unsupported(f"unbound name {name} in {self.fi.qualname} line {getattr(node, 'lineno', '?')}")
